@@ -573,3 +573,23 @@ Proof.
     + cbn [ratio_reduced]. pose proof (Z.gcd_mul_mono_r_nonneg qa qc g ltac:(lia)) as M.
       rewrite <- Hqa, <- Hqc in M. fold g in M. pose proof (Z.gcd_nonneg qa qc). nia.
 Qed.
+
+(* ------------------------------------------------------------------------------------------ *)
+(** * the byte strings of this file are C07's specification of to_le_bytes / from_le_bytes *)
+
+Lemma to_words8_le_bytes_n n : forall v, to_words 8 n v = le_bytes_n n v.
+Proof.
+  induction n as [|n IH]; intros v; cbn [to_words le_bytes_n]; [reflexivity|].
+  rewrite IH. unfold B. change (2 ^ 8) with 256. reflexivity.
+Qed.
+
+Theorem le_bytes_is_to_le_bytes_spec n : le_bytes n = to_le_bytes_spec n.
+Proof. unfold le_bytes, to_le_bytes_spec, nbytes. apply to_words8_le_bytes_n. Qed.
+
+Theorem value8_is_le_value bs : value 8 bs = le_value bs.
+Proof.
+  induction bs as [|b t IH]; cbn [value le_value]; [reflexivity|]. rewrite IH. unfold B. change (2 ^ 8) with 256. reflexivity.
+Qed.
+
+Theorem le_bytes_c07_spec n bs : le_bytes n = to_le_bytes_spec n /\ value 8 bs = le_value bs.
+Proof. split; [apply le_bytes_is_to_le_bytes_spec | apply value8_is_le_value]. Qed.
